@@ -289,10 +289,66 @@ func (c *chain) end() {
 	}
 	c.inBlock = false
 	c.snap = nil
+	if !c.light {
+		c.ledgerCheck()
+	}
 	c.appHashes = append(c.appHashes, hex.EncodeToString(rc.Data))
 	c.vs = c.pendingVs.clone()
 	c.pendingVs.apply(re.ValidatorUpdates)
 	c.height++
+}
+
+// ledgerCheck evaluates the token ledger identities on the state just committed (C05): general +
+// active escrow + debonding escrow balances of all accounts + common pool + governance deposits +
+// last block fees = total supply, and for every account the shares of the (debonding) delegations
+// to it add up to its pool's total shares, an empty pool having no balance.
+func (c *chain) ledgerCheck() {
+	ctx := context.Background()
+	t := openCommitted(c.r)
+	if t == nil {
+		return
+	}
+	defer t.Close()
+	st := stakingState.NewImmutableState(t)
+	total, err := st.TotalSupply(ctx)
+	if err != nil {
+		return
+	}
+	addrs, _ := st.Addresses(ctx)
+	dels, _ := st.Delegations(ctx)
+	debs, _ := st.DebondingDelegations(ctx)
+	var sum quantity.Quantity
+	for _, a := range addrs {
+		acct, err := st.Account(ctx, a)
+		if err != nil {
+			continue
+		}
+		_ = sum.Add(&acct.General.Balance)
+		_ = sum.Add(&acct.Escrow.Active.Balance)
+		_ = sum.Add(&acct.Escrow.Debonding.Balance)
+		if err = staking.SanityCheckAccountShares(a, acct, dels[a], debs[a]); err != nil {
+			c.fail("ledger", "c05-share-bookkeeping-broken", fmt.Sprintf("height %d: %v", c.height, err))
+			return
+		}
+	}
+	// delegations towards an address that has no account record any more
+	for e := range dels {
+		if acct, err := st.Account(ctx, e); err == nil {
+			if err = staking.SanityCheckAccountShares(e, acct, dels[e], debs[e]); err != nil {
+				c.fail("ledger", "c05-share-bookkeeping-broken", fmt.Sprintf("height %d: %v", c.height, err))
+				return
+			}
+		}
+	}
+	for _, f := range []func(context.Context) (*quantity.Quantity, error){st.CommonPool, st.GovernanceDeposits, st.LastBlockFees} {
+		if q, err := f(ctx); err == nil {
+			_ = sum.Add(q)
+		}
+	}
+	c.count("ledger-checked")
+	if sum.Cmp(total) != 0 {
+		c.fail("ledger", "c05-supply-identity-broken", fmt.Sprintf("height %d: balances, pools and fees add up to %s, total supply is %s", c.height, &sum, total))
+	}
 }
 
 // tree returns the state the next transaction is built against: the working tree of the block in
@@ -1005,7 +1061,32 @@ func hasBurst(ops []string) bool {
 }
 
 // check runs a case (world line + ops) with all checks incl. the twin run without bursts.
+// onlyPanics (-spec c16): keep only the failures that are a crash of the application on
+// transaction bytes (CheckTx, DeliverTx, block phases); everything else is C08's business.
+var onlyPanics, onlyLedger bool
+
 func check(lines []string, base string, res *hlib.Result) []failure {
+	fs := checkAll(lines, base, res)
+	if onlyLedger || !onlyPanics {
+		var out []failure
+		for _, f := range fs {
+			if (f.kind == "ledger") == onlyLedger || f.kind == "harness" {
+				out = append(out, f)
+			}
+		}
+		return out
+	}
+	var out []failure
+	for _, f := range fs {
+		if f.kind == "panic" || f.kind == "harness" {
+			f.sig = strings.Replace(strings.Replace(f.sig, "c08-", "c16-", 1), "c10-", "c16-", 1)
+			out = append(out, f)
+		}
+	}
+	return out
+}
+
+func checkAll(lines []string, base string, res *hlib.Result) []failure {
 	variant, backend, ok := parseWorldLine(lines[0])
 	if !ok {
 		return []failure{{"harness", "harness-bad-case", "first line must be `world variant=.. backend=..`", 0}}
@@ -1148,7 +1229,10 @@ func main() {
 	backends := flag.String("backends", "badger,pathbadger", "node database backends to alternate")
 	noShrink := flag.Bool("noshrink", false, "do not shrink failures")
 	dump := flag.String("dump", "", "write the generated cases to this directory")
+	spec := flag.String("spec", "c08", "c08: all clauses but the ledger identities; c16: only crashes on transaction bytes; c05: only the ledger identities after every commit")
 	flag.Parse()
+	onlyPanics = *spec == "c16"
+	onlyLedger = *spec == "c05"
 
 	res := hlib.NewResult("txdrv", *seed)
 	res.Rule = "histories of blocks on a real ABCI multiplexer with the 8 real applications and the real staking authentication handler; every transaction is built against the state of the block in progress for one of the registered methods in one of its variants (valid, or invalid in one respect: authority, stake/balance, unknown id, duplicate, stale, malformed body), with an envelope mode (ok, garbage, bad signature, wrong chain context, truncated, unknown method, oversized), a nonce mode (ok, stale, future), a fee mode (ok, none, below minimum gas price, more than the balance, into the minimum transact balance) and a gas limit at one exhaustion point (0, size cost-1, size cost, size+operation cost-1, exact, ample); distinct = distinct (method, variant, gas mode, envelope/nonce/fee mode, response class) tuples delivered"
